@@ -33,6 +33,9 @@ func init() {
 			{ID: "C19.R4", Doc: "parseVal returns Object/List operands unchanged", Run: c19R4},
 			{ID: "C19.R5", Doc: "no method hands its bare receiver to a callback, a typed slice, a result container or a comparison hand-out", Run: c19R5},
 			{ID: "C19.R6", Doc: "a stored element is never tested for the concrete container types (*list, *object): a derived value is neither, the container interfaces / TypeOf decide what is a container", Run: c19R6},
+			{ID: "C19.R8", Doc: "TypeOf reports a stored derived container by its interface, so tree-form writes and kind tests treat it as the container it is (= C12.R3)", Run: func(c *Ctx) {
+				c.R.Floor("C19.R8", runAs(c, "C19.R8", c12R3, func(o *Obligation) bool { return strings.Contains(o.Construct, "TypeOf") }), 2)
+			}},
 			{ID: "C19.R7", Doc: "tree-form reads reach the stored value: GetTF splits every path into exactly the segments stepwise navigation uses and hands back what Get returns (= C10.R1 for GetTF)", Run: func(c *Ctx) {
 				c.R.Floor("C19.R7", runAs(c, "C19.R7", c10Run, func(o *Obligation) bool { return strings.Contains(o.Construct, "GetTF") }), 2)
 			}},
@@ -577,7 +580,38 @@ func c19R6(c *Ctx) {
 						continue
 					}
 					k++
-					if a.get(ta.X)&oELEM == 0 {
+					o := a.get(ta.X)
+					if o&oELEM == 0 {
+						// a parameter of an unexported helper (typeOf(f field)): what its static call sites hand in
+						if par, isPar := ta.X.(*ssa.Parameter); isPar && f.Parent() == nil && f.Object() != nil && !f.Object().Exported() {
+							idx := -1
+							for i, p := range f.Params {
+								if p == par {
+									idx = i
+								}
+							}
+							for _, g := range a.fns {
+								var scan func(h *ssa.Function)
+								scan = func(h *ssa.Function) {
+									for _, hb := range h.Blocks {
+										for _, hin := range hb.Instrs {
+											if ci, ok := hin.(ssa.CallInstruction); ok && ci.Common().StaticCallee() == f && !ci.Common().IsInvoke() {
+												args := ci.Common().Args
+												if idx >= 0 && idx < len(args) && a.get(args[idx])&oELEM != 0 {
+													o |= oELEM
+												}
+											}
+										}
+									}
+									for _, an := range h.AnonFuncs {
+										scan(an)
+									}
+								}
+								scan(g)
+							}
+						}
+					}
+					if o&oELEM == 0 {
 						continue
 					}
 					n++
